@@ -12,6 +12,7 @@ NEG = {'neg-1-1': ['C05', 'C03', 'C15'], 'neg-1-2': ['C09', 'C12', 'C02', 'C08']
 EXTRA = {
     'C04-m1': ['C13'], 'C05-m1': ['C04', 'C13'], 'C13-m2': ['C05'], 'C12-m2': ['C09'], 'C08-m2': ['C01'], 'C10-m1': ['C01', 'C06'],
     'C11-m2': ['C02'], 'C06-m2': ['C01'], 'C04-m2': ['C05', 'C12'], 'C05-m2': ['C04', 'C12'], 'C09-m2': ['C13'], 'C15-m2': ['C13'],
+    'C10-r4-32': ['C05'], 'C07-r4-41': ['C01'], 'C09-r4-21': ['C08'], 'C04-r4-12': ['C05'],
     'C02-r3-12': ['C08'], 'C05-r3-21': ['C08', 'C01'], 'C01-r3-22': ['C06', 'C10'], 'C11-r3-11': ['C02'],
     'C06-r2-11': ['C10'], 'C01-r2-61': ['C10', 'C06'], 'C11-r2-41': ['C02'], 'C13-r2-32': ['C07'], 'C07-r2-51': ['C13'],
     'regress-F2-ref-under-or': ['C06', 'C10', 'C03'], 'regress-F3-and-alternatives': ['C06', 'C10'], 'regress-F4-append-aliasing': ['C06', 'C10'],
